@@ -30,6 +30,7 @@ props! {
     "C07" => c07,
     "C08" => c08,
     "C09" => c09,
+    "C11" => c11,
     "C13" => c13,
     "C14" => c14,
     "C15" => c15,
@@ -48,6 +49,7 @@ pub fn worker(prop: &str, args: &[String]) -> i32 {
         "C05" => c05::worker(&w),
         "C06" => c06::worker(&w),
         "C07" => c07::worker(&w),
+        "C11" => c11::worker(&w),
         _ => 2,
     }
 }
